@@ -60,6 +60,12 @@ func Main() {
 		faultWorker(run, run.Args[0])
 		run.Finish(vrun.Level{})
 	}
+	if run.Replay != "" {
+		// the working directory changes below
+		if abs, err := filepath.Abs(run.Replay); err == nil {
+			run.Replay = abs
+		}
+	}
 	root := mkRoot()
 	cleanup := func() {
 		os.Chdir("/")
@@ -377,6 +383,21 @@ func partBPrepare(run *vrun.Run) ([]*faultCtx, faultPlan) {
 			run.Cover("b:index-kind=scan-of-tree")
 		}
 	}
+	if run.Thorough() {
+		// the whole corpus index: sampled faults
+		sp := FaultSpec{Corpus: true, Sampled: 12000, Seed: run.Seed}
+		c, err := buildFaultCtx(K, sp, "", false)
+		if err != nil || c.freshE != "" {
+			run.Inconclusive("harness: corpus index context unavailable")
+			plan.Specs = append(plan.Specs, FaultSpec{})
+		} else {
+			c.spec.N, c.spec.M = len(c.F), len(c.P)
+			plan.Specs = append(plan.Specs, c.spec)
+			ctxs = append(ctxs, c)
+			run.Cover("b:index-kind=whole-corpus-scan(sampled)")
+			run.Extra("corpus_index", map[string]int{"entries": len(c.origM), "cache_file_bytes": len(c.F), "payload_bytes": len(c.P), "sampled_faults": sp.Sampled})
+		}
+	}
 	return ctxs, plan
 }
 
@@ -390,8 +411,10 @@ func partBRun(run *vrun.Run, root string, ctxs []*faultCtx, plan faultPlan) {
 	total := off[len(off)-1]
 	var nF, nP int
 	for _, s := range plan.Specs {
-		nF += s.N
-		nP += s.M
+		if s.Sampled == 0 {
+			nF += s.N
+			nP += s.M
+		}
 	}
 	run.Extra("fault_enumeration", map[string]int{"indexes": len(ctxs), "cache_file_bytes_total": nF, "payload_bytes_total": nP, "cases": total})
 	// the children run under a small address-space limit so that a runaway
@@ -404,8 +427,13 @@ func partBRun(run *vrun.Run, root string, ctxs []*faultCtx, plan faultPlan) {
 		at := fmt.Sprintf("fault case %d", d.Case)
 		for _, c := range ctxs {
 			if c.k == k {
-				variant, pos, val, image, strict := c.faultCase(d.Case - off[k])
-				wit = FaultWitness{Part: "fault", Spec: c.spec, Variant: variant, Pos: pos, Val: val, Image: base64.StdEncoding.EncodeToString(image), Strict: strict}
+				variant, pos, val := c.faultCase(d.Case - off[k])
+				image, strict := c.materialize(variant, pos, val)
+				w := FaultWitness{Part: "fault", K: c.k, Spec: c.spec, Variant: variant, Pos: pos, Val: val, Strict: strict}
+				if len(image) <= 64<<10 {
+					w.Image = base64.StdEncoding.EncodeToString(image)
+				}
+				wit = w
 				at = fmt.Sprintf("index %d, %s pos=%d val=%d", k, variant, pos, val)
 			}
 		}
@@ -419,6 +447,9 @@ func partC(run *vrun.Run, root string, ctxs []*faultCtx) {
 	// failing writer at every write call, every context
 	vrun.ParallelFor(len(ctxs), func(i int) {
 		c := ctxs[i]
+		if c.spec.Corpus {
+			return
+		}
 		cc := *c
 		cc.seen = map[uint64]bool{}
 		orig := buildIndex(c.origM)
@@ -433,7 +464,7 @@ func partC(run *vrun.Run, root string, ctxs []*faultCtx) {
 	// real serializeToFile under strace: every write system call
 	var sel []*faultCtx
 	for _, c := range ctxs {
-		if c.spec.Synth == nil && len(c.origM) > 0 {
+		if c.spec.Synth == nil && len(c.origM) > 0 && !c.spec.Corpus {
 			sel = append(sel, c)
 		}
 	}
@@ -634,7 +665,7 @@ func replay(run *vrun.Run) {
 	case "fault":
 		var w FaultWitness
 		vrun.ReadReplay(run.Replay, &w)
-		c, err := buildFaultCtx(0, w.Spec, "b0", true)
+		c, err := buildFaultCtx(w.K, w.Spec, fmt.Sprintf("b%d", w.K), true)
 		if err != nil {
 			fmt.Println("replay: cannot rebuild the fault context:", err)
 			return
@@ -642,9 +673,13 @@ func replay(run *vrun.Run) {
 		switch {
 		case w.Variant == "writer-fail":
 			writerFaults(run, c, buildIndex(c.origM))
-		case w.Image != "" || w.Variant == "gz-prefix":
+		case w.Image != "" || (w.Variant == "gz-prefix" && w.Pos == 0):
 			img, _ := base64.StdEncoding.DecodeString(w.Image)
 			judgeImage(run, c, w.Variant, w.Pos, w.Val, img, w.Strict, meterCfg{alloc: true})
+		case strings.HasPrefix(w.Variant, "gz-") || strings.HasPrefix(w.Variant, "pl-"):
+			if img, strict := c.materialize(w.Variant, w.Pos, w.Val); img != nil {
+				judgeImage(run, c, w.Variant, w.Pos, w.Val, img, strict, meterCfg{alloc: true})
+			}
 		default:
 			if ok, _ := straceAvailable("."); ok {
 				os.MkdirAll("s0", 0o755)
